@@ -141,18 +141,37 @@ def _rule_a(cx: _Cx) -> None:
             rep.ob("C20.a-flush-before-read", mod, "SPARQLUpdateStore." + m, "delegation to SPARQLStore.%s" % m, False,
                    "override neither delegates to the base read nor queries", node=f)
             continue
-        fl = flush.nodes(f, g, True, frozenset({id(f)}))
-        unflushed = {g.entry} | H.feasible_reach(g, g.entry, fl, flush.env_for(f))
-        early = dirty.nodes(f, g, False, frozenset({id(f)})) & ({g.entry} | H.feasible_reach(g, g.entry, (), dirty.env_for(f)))
+        def judge(fn: ast.AST, gg: CFG, calls: list) -> tuple[dict[int, bool], str | None]:
+            """per call of `calls` in fn: has every feasible path to it flushed (switches off, edits pending); and the first statement of fn
+            that flushes although dirty reads are allowed, if there is one"""
+            fl = flush.nodes(fn, gg, True, frozenset({id(fn)}))
+            unflushed = {gg.entry} | H.feasible_reach(gg, gg.entry, fl, flush.env_for(fn))
+            early = dirty.nodes(fn, gg, False, frozenset({id(fn)})) & ({gg.entry} | H.feasible_reach(gg, gg.entry, (), dirty.env_for(fn)))
+            res = {}
+            for d_ in calls:
+                dn = gg.node_of(d_, mod)
+                res[id(d_)] = bool(fl) and dn not in unflushed and dn not in fl
+            return res, (norm(gg.nodes[sorted(early)[0]].ast)[:60] if early else None)
+
+        inner, early_txt = judge(f, g, deleg)
+        # a method defined under a decorator of this module that returns a closure around it IS that closure: what the closure does before
+        # it calls the function it was given happens before the method's own body, on every call
+        outer_all = False
+        for w, rname in H.wrapping_closures(mod, f):
+            wcalls = [c for c in own_nodes(w) if isinstance(c, ast.Call) and isinstance(c.func, ast.Name) and c.func.id == rname]
+            if not wcalls:
+                continue
+            wres, wearly = judge(w, CFG(w), wcalls)
+            outer_all = outer_all or all(wres.values())
+            early_txt = early_txt or wearly
         for d in deleg:
-            dn = g.node_of(d, mod)
-            flushed = bool(fl) and dn not in unflushed and dn not in fl
-            ok = flushed and not early
+            flushed = inner[id(d)] or outer_all
+            ok = flushed and early_txt is None
             rep.ob("C20.a-flush-before-read", mod, "SPARQLUpdateStore." + m, d, ok,
                    "with autocommit and dirty reads off, every path to the read has flushed the pending edits; with dirty reads on, none does" if ok else
                    ("the read reaches the endpoint on a path that does not pass `if not self.autocommit and not self.dirty_reads: self.commit()`" if not flushed else
                     "with autocommit off and dirty reads allowed the read still sends the pending edits (%s): they are at the endpoint before commit() "
-                    "and rollback() cannot discard them" % norm(g.nodes[sorted(early)[0]].ast)[:60]), node=d)
+                    "and rollback() cannot discard them" % early_txt), node=d)
     # derived reads must go through self.<direct read> (dynamic dispatch to the flushing override)
     for m, f in list(base.items()) + list(upd.items()):
         if m in direct or m.startswith("_") or m in ("query",):
@@ -739,6 +758,9 @@ def _rule_j(cx: _Cx) -> None:
                    "this form, is treated as a named graph", node=r)
 
 
+_PAGING = ("LIMIT", "OFFSET", "ORDER BY")
+
+
 def _rule_k(cx: _Cx) -> None:
     repo, rep, H, mod, con, base, upd, both, roles = cx.all()
     # ------------------------------------------------------------------ (k) paging belongs to SELECT
@@ -746,9 +768,11 @@ def _rule_k(cx: _Cx) -> None:
              "in a method that chooses between a SELECT and an ASK form of its query, every read of the graph's paging attributes (LIMIT / OFFSET / "
              "ORDER BY via hasattr/getattr) depends on the condition that selected SELECT - by control (inside a branch of a test on it) or by "
              "data (read from a name that is None unless SELECT): an ASK has no solution variable to order by and a single solution to slice, so "
-             "with g.LIMIT set `(s, p, o) in g` raised on None.n3() and with g.OFFSET = 1 a present triple is reported absent", floor=8)
-    pconst = {nm for nm, v in H.StrEnv._assigns(mod.tree.body).items() if isinstance(v, ast.Constant) and v.value in ("LIMIT", "OFFSET", "ORDER BY")}
+             "with g.LIMIT set `(s, p, o) in g` raised on None.n3() and with g.OFFSET = 1 a present triple is reported absent. One obligation per "
+             "(object, paging attribute) read in such a method; each of LIMIT / OFFSET / ORDER BY must be read by one", floor=4)
+    pconst = {nm: v.value for nm, v in H.StrEnv._assigns(mod.tree.body).items() if isinstance(v, ast.Constant) and v.value in _PAGING}
     n_forms = 0
+    seen_attrs: set[str] = set()
     for cls, ms in both:
         for mname, f in ms.items():
             det = _select_determinants(f)
@@ -794,16 +818,31 @@ def _rule_k(cx: _Cx) -> None:
                     if good and some:
                         gated.add(nm)
                         changed = True
+            # one obligation per (object, paging attribute) the method reads, discharged only if EVERY read of it is gated: `hasattr(x, A) and
+            # getattr(x, A)` and `getattr(x, A, None)` are one read of the same thing, however many calls spell it
+            reads: dict[tuple[str, str], list[tuple[ast.Call, bool]]] = {}
             for n in own_nodes(f):
-                if isinstance(n, ast.Call) and isinstance(n.func, ast.Name) and n.func.id in ("hasattr", "getattr") and len(n.args) >= 2 and (
-                        (isinstance(n.args[1], ast.Name) and n.args[1].id in pconst) or (isinstance(n.args[1], ast.Constant) and n.args[1].value in ("LIMIT", "OFFSET", "ORDER BY"))):
+                if isinstance(n, ast.Call) and isinstance(n.func, ast.Name) and n.func.id in ("hasattr", "getattr") and len(n.args) >= 2:
+                    a1 = n.args[1]
+                    attr = pconst.get(a1.id) if isinstance(a1, ast.Name) else (a1.value if isinstance(a1, ast.Constant) and a1.value in _PAGING else None)
+                    if attr is None:
+                        continue
                     ok = (isinstance(n.args[0], ast.Name) and n.args[0].id in gated) or ctl(n)
-                    rep.ob("C20.k-paging-only-for-select", mod, where, n, ok,
-                           "read only when the query is a SELECT" if ok else
-                           "the paging attribute is read whatever the query form: a fully bound pattern (ASK) gets ORDER BY / LIMIT / OFFSET too "
-                           "(None.n3() when there is no variable; OFFSET skips the only solution)", node=n)
+                    reads.setdefault((norm(n.args[0]), attr), []).append((n, ok))
+            for (obj, attr), sites in sorted(reads.items()):
+                seen_attrs.add(attr)
+                bad = [n for n, ok in sites if not ok]
+                ok = not bad
+                n = bad[0] if bad else sites[0][0]
+                rep.ob("C20.k-paging-only-for-select", mod, where, n, ok,
+                       ("%s of %s read only when the query is a SELECT (%d read(s))" % (attr, obj, len(sites))) if ok else
+                       "the paging attribute is read whatever the query form: a fully bound pattern (ASK) gets ORDER BY / LIMIT / OFFSET too "
+                       "(None.n3() when there is no variable; OFFSET skips the only solution)", node=n)
     if not n_forms:
         raise AnalysisError("no SPARQLStore method chooses between SELECT and ASK any more")
+    if n_forms and set(_PAGING) - seen_attrs:
+        raise AnalysisError("no method that chooses between SELECT and ASK reads the paging attribute(s) %s of the graph any more - where paging is applied is not "
+                            "recognised" % ", ".join(sorted(set(_PAGING) - seen_attrs)))
 
 
 def _rule_l(cx: _Cx) -> None:
@@ -1056,6 +1095,95 @@ def _rule_o(cx: _Cx) -> None:
              "in SPARQLStore/SPARQLUpdateStore a term of the pattern is looked up in a row of the endpoint's answer (row.get(t) / row[t]) only where "
              "it is known to be a Variable (inside `isinstance(t, Variable)`, or bound to Variable(..) only): a bound term is a str as well, and "
              "ResultRow looks a str up as a variable NAME - g.triples((None, None, Literal('p'))) yielded the predicate in the object position", floor=3)
+    def origins(e: ast.expr, fn: ast.AST) -> list[ast.expr]:
+        """the expressions whose value `e` can be: the variable of the enclosing loop / comprehension over a display stands for each element of it"""
+        if isinstance(e, ast.Name):
+            for p_ in mod.parents(e):
+                it = None
+                if isinstance(p_, (ast.GeneratorExp, ast.ListComp, ast.SetComp, ast.DictComp)):
+                    it = next((g_.iter for g_ in p_.generators if isinstance(g_.target, ast.Name) and g_.target.id == e.id), None)
+                elif isinstance(p_, (ast.For, ast.AsyncFor)) and isinstance(p_.target, ast.Name) and p_.target.id == e.id:
+                    it = p_.iter
+                if it is not None:
+                    if isinstance(it, (ast.Tuple, ast.List, ast.Set)) and it.elts and not any(isinstance(x, ast.Starred) for x in it.elts):
+                        return list(it.elts)
+                    break
+                if p_ is fn:
+                    break
+        return [e]
+
+    def callee_of(c: ast.Call, ms: dict) -> tuple[str, ast.AST, bool] | None:
+        """the function of this module a call runs: a module-level function by name, a method of the same class through self"""
+        if isinstance(c.func, ast.Name):
+            d = mod.defs.get(c.func.id)
+            return (c.func.id, d, False) if isinstance(d, (ast.FunctionDef, ast.AsyncFunctionDef)) else None
+        if isinstance(c.func, ast.Attribute) and isinstance(c.func.value, ast.Name) and c.func.value.id == "self" and c.func.attr in ms:
+            return (c.func.attr, ms[c.func.attr], True)
+        return None
+
+    def analyse(cls: str, ms: dict, where: str, f: ast.AST, rows: set[str], bound: dict[str, list[tuple[ast.expr, bool]]], depth: int) -> None:
+        """rows: the names of f that hold a row of the answer; bound: for a parameter of f, what the callers pass (expression, is it known to
+        be a Variable there)"""
+        defs = H.local_defs(f)
+        for n in own_nodes(f, include_nested=True):
+            key = None
+            if isinstance(n, ast.Call) and isinstance(n.func, ast.Attribute) and n.func.attr == "get" and isinstance(n.func.value, ast.Name) and n.func.value.id in rows and n.args:
+                key = n.args[0]
+            elif isinstance(n, ast.Subscript) and isinstance(n.value, ast.Name) and n.value.id in rows and isinstance(n.ctx, ast.Load):
+                key = n.slice
+            elif isinstance(n, ast.Call) and isinstance(n.func, ast.Name) and n.func.id == "getattr" and len(n.args) >= 2 and isinstance(n.args[0], ast.Name) and n.args[0].id in rows:
+                key = n.args[1]
+            if key is None or isinstance(key, ast.Constant):
+                continue
+
+            def known_variable(k: ast.expr, at: ast.AST) -> bool:
+                if isinstance(k, ast.Name):
+                    ds = defs.get(k.id, [])
+                    return _guarded_by_isinstance(mod, at, f, k.id, var_names) or (
+                        bool(ds) and all(v is not None and isinstance(v, ast.Call) and isinstance(v.func, ast.Name) and v.func.id in var_names for _s, v in ds))
+                return isinstance(k, ast.Call) and isinstance(k.func, ast.Name) and k.func.id in var_names
+
+            here = known_variable(key, n)
+            # one obligation per value the key stands for: the arguments of the callers where the key is a parameter of a helper
+            alts = bound.get(key.id) if isinstance(key, ast.Name) and not defs.get(key.id) else None
+            for label, ok in ([(norm(e), here or kv) for e, kv in alts] if alts else [(None, here)]):
+                rep.ob("C20.o-row-lookup-only-for-variables", mod, where, n, ok,
+                       ("the key is a Variable here" if ok else
+                        "a term that need not be a Variable is looked up in the result row: a bound term whose text is the name of one of the query's "
+                        "variables (Literal('p'), URIRef('o')) is replaced by the value of that variable") + (" (key: %s)" % label if label else ""), node=n)
+        if depth >= 3:
+            return
+        # a row handed to a function of this module is a row there
+        for c in own_nodes(f, include_nested=True):
+            if not (isinstance(c, ast.Call) and any(isinstance(a, ast.Name) and a.id in rows for a in list(c.args) + [k.value for k in c.keywords])):
+                continue
+            tgt = callee_of(c, ms)
+            if tgt is None or tgt[1] is f or any(isinstance(a, ast.Starred) for a in c.args) or any(k.arg is None for k in c.keywords):
+                continue
+            nm, g, bound_self = tgt
+            ps = [a.arg for a in g.args.posonlyargs + g.args.args]  # type: ignore[attr-defined]
+            if bound_self and ps:
+                ps = ps[1:]
+            actual: dict[str, ast.expr] = dict(zip(ps, c.args))
+            actual.update({k.arg: k.value for k in c.keywords if k.arg})
+            rows_g = {p_ for p_, a in actual.items() if isinstance(a, ast.Name) and a.id in rows}
+            bound_g: dict[str, list[tuple[ast.expr, bool]]] = {}
+            for p_, a in actual.items():
+                if p_ in rows_g:
+                    continue
+                outs: list[tuple[ast.expr, bool]] = []
+                for e in origins(a, f):
+                    if isinstance(e, ast.Name) and e.id in bound and not defs.get(e.id):
+                        outs.extend(bound[e.id])
+                    else:
+                        ds = defs.get(e.id, []) if isinstance(e, ast.Name) else []
+                        kv = (isinstance(e, ast.Name) and (_guarded_by_isinstance(mod, c, f, e.id, var_names) or (bool(ds) and all(
+                            v is not None and isinstance(v, ast.Call) and isinstance(v.func, ast.Name) and v.func.id in var_names for _s, v in ds)))) or (
+                            isinstance(e, ast.Call) and isinstance(e.func, ast.Name) and e.func.id in var_names)
+                        outs.append((e, bool(kv)))
+                bound_g[p_] = outs
+            analyse(cls, ms, "%s (reached from %s)" % (nm, where), g, rows_g, bound_g, depth + 1)
+
     for cls, ms in both:
         for mname, f in ms.items():
             defs = H.local_defs(f)
@@ -1068,27 +1196,8 @@ def _rule_o(cx: _Cx) -> None:
                 if isinstance(n, (ast.For, ast.comprehension)) and isinstance(n.target, ast.Name) and any(
                         (isinstance(x, ast.Name) and x.id in res) or id(x) in answers for x in ast.walk(n.iter)):
                     rows.add(n.target.id)
-            for n in own_nodes(f, include_nested=True):
-                key = None
-                if isinstance(n, ast.Call) and isinstance(n.func, ast.Attribute) and n.func.attr == "get" and isinstance(n.func.value, ast.Name) and n.func.value.id in rows and n.args:
-                    key = n.args[0]
-                elif isinstance(n, ast.Subscript) and isinstance(n.value, ast.Name) and n.value.id in rows and isinstance(n.ctx, ast.Load):
-                    key = n.slice
-                elif isinstance(n, ast.Call) and isinstance(n.func, ast.Name) and n.func.id == "getattr" and len(n.args) >= 2 and isinstance(n.args[0], ast.Name) and n.args[0].id in rows:
-                    key = n.args[1]
-                if key is None or isinstance(key, ast.Constant):
-                    continue
-                ok = False
-                if isinstance(key, ast.Name):
-                    ds = defs.get(key.id, [])
-                    ok = _guarded_by_isinstance(mod, n, f, key.id, var_names) or (
-                        bool(ds) and all(v is not None and isinstance(v, ast.Call) and isinstance(v.func, ast.Name) and v.func.id in var_names for _s, v in ds))
-                elif isinstance(key, ast.Call) and isinstance(key.func, ast.Name) and key.func.id in var_names:
-                    ok = True
-                rep.ob("C20.o-row-lookup-only-for-variables", mod, "%s.%s" % (cls, mname), n, ok,
-                       "the key is a Variable here" if ok else
-                       "a term that need not be a Variable is looked up in the result row: a bound term whose text is the name of one of the query's "
-                       "variables (Literal('p'), URIRef('o')) is replaced by the value of that variable", node=n)
+            if rows:
+                analyse(cls, ms, "%s.%s" % (cls, mname), f, rows, {}, 0)
 
 
 def _rule_p(cx: _Cx) -> None:
@@ -1285,6 +1394,10 @@ def _rule_t(cx: _Cx) -> None:
                 guards = {g.by_ast[id(i)] for i in own_nodes(f) if isinstance(i, ast.If) and id(i) in g.by_ast and _store_identity_test(i.test, srcx.id) is True
                           and _always_leaves(i.body) and not any(n is x for s_ in i.body for x in ast.walk(s_))}
                 ok = bool(guards) and g.must_pass_before(g.node_of(n, gm), guards)
+            if not ok:
+                # the same clause read off all the tests on the way together: `isinstance(c, Graph) and c.store is self.store` leaving
+                # first and the copy under a later `isinstance(c, Graph)` arm (an elif chain, a `match` with guards) excludes it as well
+                ok = H.excluded_on_path(H.path_conditions(gm, n, f), lambda e, _x=srcx.id: _store_identity_test(e, _x), f)
             rep.analysed("rdflib/graph.py:" + q)
             rep.ob("C20.t-no-copy-of-own-context", gm, q, n, ok,
                    "not reached for a graph of this store" if ok else
@@ -1351,19 +1464,35 @@ def _rule_u(cx: _Cx) -> None:
                 rep.ob("C20.u-queued-text-never-ends-with-separator", mod, where, n, not bad,
                        "ends with the constant text of its template" if not bad else "the queued template itself ends with the separator: %r" % bad[0][-20:], node=n)
                 continue
-            ok = False
+            # the names whose text is queued here: the argument itself, or - where the argument is (a name bound once to) a display of names,
+            # `q.extend([t])` for `q.append(t)` - each name of the display
+            texts: list[str] = []
+            shown = arg
             if isinstance(arg, ast.Name):
+                ads = H.local_defs(f).get(arg.id, [])
+                used_otherwise = any(isinstance(x, ast.Attribute) and isinstance(x.value, ast.Name) and x.value.id == arg.id for x in own_nodes(f))
+                if len(ads) == 1 and isinstance(ads[0][1], (ast.List, ast.Tuple)) and not used_otherwise:
+                    shown = ads[0][1]
+                else:
+                    texts = [arg.id]
+            if isinstance(shown, (ast.List, ast.Tuple)) and shown.elts and all(isinstance(x, ast.Name) for x in shown.elts) and not (
+                    isinstance(n, ast.Call) and isinstance(n.func, ast.Attribute) and n.func.attr == "append"):
+                texts = [x.id for x in shown.elts]  # type: ignore[attr-defined]
+            ok = bool(texts)
+            for tname in texts:
                 g = g or CFG(f)
                 en = g.node_of(n, mod)
+                one = False
                 for st in own_nodes(f):
-                    if id(st) in g.by_ast and strips_sep(st, arg.id):
+                    if id(st) in g.by_ast and strips_sep(st, tname):
                         sn = g.by_ast[id(st)]
                         inside = {id(x) for x in ast.walk(st)}
                         later = [a for a in own_nodes(f) if isinstance(a, (ast.Assign, ast.AugAssign, ast.AnnAssign)) and id(a) not in inside and id(a) in g.by_ast
-                                 and any(isinstance(t, ast.Name) and t.id == arg.id for t in (a.targets if isinstance(a, ast.Assign) else [a.target]))
+                                 and any(isinstance(t, ast.Name) and t.id == tname for t in (a.targets if isinstance(a, ast.Assign) else [a.target]))
                                  and g.by_ast[id(a)] in g.reach(sn) and en in g.reach(g.by_ast[id(a)])]
                         if g.must_pass_before(en, {sn}) and not later:
-                            ok = True
+                            one = True
+                ok = ok and one
             rep.ob("C20.u-queued-text-never-ends-with-separator", mod, where, n, ok,
                    "a trailing separator is removed before the text is queued" if ok else
                    "the end of the queued text is the caller's, and nothing removes a trailing '%s' before it is queued: commit() joins it to the next "
